@@ -190,17 +190,24 @@ class C17(Spec):
                  'compaction, rehashing) to a ledger of live managed addresses, by invariant preservation over every history; prime table, load '
                  'factor, hash shift, probe formula, tie rule and threshold formula regenerated from src/GC.c each run; white-box differential '
                  'check of the whole entry array against the real collector after every operation')
-    level_text = ('Theorem C17_registry_exact: for every history of new / new_root / raw allocation / del / collection with an arbitrary mark set / stop / '
-                  'start in which live addresses are pairwise distinct, at every step the model of GC.c has mem(p) exactly for the live managed '
-                  'addresses, each recorded once with its allocation-time root flag, nitems equal to their number, every address inside '
-                  '[minptr,maxptr], all marks clear, and the local robin-hood invariant (from which lookup correctness follows for any address '
-                  'pattern). Supporting theorems: lookup = membership under the invariant, insertion and backward-shift erase preserve it, the '
-                  'in-place sweep loop keeps exactly the marked-or-root entries and lists every other entry once (including wrap-around), '
-                  'GC_Ideal_Size(n) > n over the generated prime table and load factor. The model is tied to the real GC.c by comparing the '
-                  'complete entry array, counters and bounds after every operation on histories whose addresses collide modulo every registry size.')
+    level_text = ('Theorem C17_registry_exact: for every history of new / new_root / raw allocation / del / collection with an arbitrary mark set '
+                  '(explicit, or triggered by an allocation reaching the threshold) / stop / start in which a new address is 8-aligned and differs from '
+                  'the live managed ones, at every reachable state the model of GC.c has mem(p) exactly for the live managed addresses, each '
+                  'recorded once with its allocation-time root flag, nitems equal to their number, every address inside [minptr,maxptr], all '
+                  'marks clear, the pending list empty, and the local robin-hood invariant with an empty slot; C17_progress: the model never divides '
+                  'by zero or spins on such a history. Supporting theorems, for every hash function, table size and address pattern: lookup = '
+                  'membership under the invariant (C17_lookup_correct), insertion (both tie rules), backward-shift erase (invariant + exactly the '
+                  'erased entry gone), GC_Rehash, the in-place sweep loop keeps exactly the marked-or-root entries and lists every other entry once '
+                  '(wrap-around included), GC_Sweep as a whole against a ledger; C17_rem_nested / C17_nested_simulation: GC_Rem with destructors that '
+                  'delete other objects, in any well-formed state including mid-sweep with objects on the pending list, refines the same recursion on '
+                  '(ledger, pending addresses) and terminates within the fuel. Source-derived: GC_Ideal_Size(n) > n over the generated prime table '
+                  'and load factor, GC_Probe = cyclic distance, GC_Hash = p/8. The model is tied to the real GC.c by comparing the complete entry '
+                  'array, counters, bounds and deallocation order after every operation on histories whose addresses collide modulo every registry size.')
     level_note = ('Trusted: Lean kernel; axioms propext/Quot.sound/Classical.choice at most; translate/g_reg.py (regex extraction from src/GC.c); the '
                   'harness/driver comparison (testing, not proof); the double division in GC_Ideal_Size is modelled as exact rational arithmetic '
                   '(compared exhaustively with the C function on a range); malloc returning distinct live blocks is the distinctness assumption. '
+                  'The history theorem is for plain destructors; destructor-issued removals are proved per GC_Rem call (any well-formed state), and '
+                  'whole sweeps with such destructors are covered by the model, the differential check and the oracle only. '
                   'Not covered: the mark phase itself (C01), finalisation accounting (C06), other threads (C13), allocation inside destructors.')
     rule = ('histories of new/newroot/newraw/tnew/del/delroot/delraw/mem/sweep(marked set)/collect(real GC_Mark)/kill/stop/start over probe objects whose '
             'addresses are chosen in one residue class modulo the product of the first k registry sizes 5,11,23,53,101,197,389 (k = 3..7) plus strays; '
